@@ -304,7 +304,7 @@ def run(ck):
                 distinct.add(core.sha(str((tr[0]["k1"], tr[0]["k2"], sig))))
     ck.cov["distinct_nontrivial"] = len(distinct)
     ck.cov["rule"] = ("behaviours generated by TLC -simulate from InvoiceRegistryGen (12 events, kinds of the two invoices "
-                      "drawn per behaviour, HTLC parameters 70% acceptable / 30% from the full product) plus seeded "
+                      "drawn per behaviour, HTLC parameters 60% acceptable / 15% acceptable but already expired (expiry below the current height) / 25% from the full product) plus seeded "
                       "free-running histories with concurrent blocks of two links, each executed on the KV and on the "
                       "SQLite store; distinct = distinct (kinds, event, parameters, answer) sequences with at least one "
                       "accept/settle/successful API call")
